@@ -115,3 +115,30 @@ pub fn bfs_chunked<M: Machine>(ctx: &Ctx, m: &M, tag: &str, max_depth: usize, st
     }
     stats
 }
+
+/// Violations found by look-ahead work that runs outside `Machine::step` (e.g. inside `fingerprint`) are
+/// collected here; per key the smallest history (length, then text) is kept, so the result does not depend on
+/// which worker found it first.
+#[derive(Default)]
+pub struct SideViolations {
+    map: std::sync::Mutex<std::collections::BTreeMap<String, (usize, String, String, Vec<String>)>>,
+}
+
+impl SideViolations {
+    pub fn add(&self, key: String, what: String, hist: Vec<String>) {
+        let cand = (hist.len(), format!("{hist:?}"), what, hist);
+        let mut g = self.map.lock().unwrap();
+        match g.get(&key) {
+            Some(old) if (old.0, &old.1) <= (cand.0, &cand.1) => {}
+            _ => {
+                g.insert(key, cand);
+            }
+        }
+    }
+    pub fn flush(&self, ctx: &Ctx, tag: &str) {
+        let mut g = self.map.lock().unwrap();
+        for (key, (_, _, what, hist)) in std::mem::take(&mut *g) {
+            ctx.violation(key, what, json!({"base": tag, "history": hist}));
+        }
+    }
+}
